@@ -200,10 +200,12 @@ def restore_module_state():
 
 def metric_pool(name, seed, tier):
     """Domain vectors containing exact zeros where the domain has them."""
+    # exact zeros, a negative zero, a value far below the epsilon shift and the smallest subnormal:
+    # all of them must come back bit-for-bit
     if name in axioms.R_CLASS or name == "hassanat":
-        vs = [(0.0, 1.0, -2.0), (0.0, 3.0, 0.0), (0.5, 0.0, 0.25), (0.0, 0.0, 0.0)]
+        vs = [(0.0, 1.0, -2.0), (-0.0, 3.0, 3.3e-22), (0.5, 5e-324, 0.25), (0.0, 0.0, 0.0)]
     else:
-        vs = [(0.0, 1.0, 2.0), (0.0, 3.0, 0.0), (0.5, 0.25, 0.25), (0.0, 0.0, 1.0)]
+        vs = [(0.0, 1.0, 2.0), (-0.0, 3.0, 3.3e-22), (0.5, 5e-324, 0.25), (0.0, 0.0, 1.0)]
     if seed:
         sc = [1.0, 0.5, 2.0, 3.0][seed % 4]
         vs = [tuple(sc * x for x in v) for v in vs]
@@ -534,6 +536,49 @@ def observe_full(kind, m, w):
     return out
 
 
+import contextlib
+
+
+@contextlib.contextmanager
+def uninitialised_memory(value):
+    """numpy.empty / empty_like are seams: what uninitialised memory contains is an environment
+    answer, served here deterministically (`value` everywhere)."""
+    real_empty, real_like = np.empty, np.empty_like
+
+    def empty(shape, dtype=float, order="C", **kw):
+        a = real_empty(shape, dtype=dtype, order=order)
+        try:
+            a.fill(value)
+        except Exception:
+            pass
+        return a
+
+    def empty_like(proto, dtype=None, order="K", subok=True, shape=None, **kw):
+        a = real_like(proto, dtype=dtype, order=order, subok=subok, shape=shape)
+        try:
+            a.fill(value)
+        except Exception:
+            pass
+        return a
+
+    np.empty, np.empty_like = empty, empty_like
+    try:
+        yield
+    finally:
+        np.empty, np.empty_like = real_empty, real_like
+
+
+def poison_allocator():
+    """The content of uninitialised memory is an environment answer: recently freed small blocks are
+    filled with huge values, so that any buffer used before being initialised shows."""
+    junk = []
+    for size in range(1, 17):
+        for _ in range(64):
+            junk.append(np.full(size, 1e300))
+            junk.append(np.full(size, -1e300))
+    del junk
+
+
 def run_twice(kind, metric, seed, between, tmpdir):
     restore_module_state()
     w1 = make_world(seed, metric)
@@ -544,13 +589,22 @@ def run_twice(kind, metric, seed, between, tmpdir):
     mb = new_model(kind, metric)
     for op in between:
         try:
-            apply_op(op, kind, metric, wb, mb, tmpdir)
+            if op == "poison":
+                poison_allocator()
+            else:
+                apply_op(op, kind, metric, wb, mb, tmpdir)
         except Exception:
             pass
     w2 = make_world(seed, metric)
     m2 = new_model(kind, metric)
-    apply_op("fit", kind, metric, w2, m2, tmpdir)
-    o2 = observe_full(kind, m2, w2)
+    if "poison" in between:
+        # the second fit sees huge values wherever it reads memory it did not initialise
+        with uninitialised_memory(1e300):
+            apply_op("fit", kind, metric, w2, m2, tmpdir)
+            o2 = observe_full(kind, m2, w2)
+    else:
+        apply_op("fit", kind, metric, w2, m2, tmpdir)
+        o2 = observe_full(kind, m2, w2)
     if o1 != o2:
         what = ["forest", "predictions on queries", "predictions on the training set"]
         diff = [what[i] for i in range(3) if o1[i] != o2[i]]
@@ -565,7 +619,7 @@ def shard_twice(shard, seed, res):
     try:
         betweens = [[]] + [list(p) for L in (1, 2) for p in itertools.product(
             ["fit", "fit_small", "fit_other", "predict_train", "metric_rows", "pre_compute"], repeat=L)
-            if not (p[0] == "predict_train")]
+            if not (p[0] == "predict_train")] + [["poison"], ["fit", "poison"], ["fit_small", "poison"]]
         for b in betweens:
             try:
                 with horizon(60.0):
